@@ -231,13 +231,6 @@ func (g *grpcClient) NewConn(
 	spec Spec,
 	header http.Header,
 ) StreamingClientConn {
-	if deadline, ok := ctx.Deadline(); ok {
-		if encodedDeadline, err := grpcEncodeTimeout(time.Until(deadline)); err == nil {
-			// Tests verify that the error in encodeTimeout is unreachable, so we
-			// don't need to handle the error case.
-			header[grpcHeaderTimeout] = []string{encodedDeadline}
-		}
-	}
 	duplexCall := newDuplexHTTPCall(
 		ctx,
 		g.HTTPClient,
@@ -245,6 +238,18 @@ func (g *grpcClient) NewConn(
 		spec,
 		header,
 	)
+	// The timeout the peer is told is the time remaining when the request is
+	// sent. For streams that is the first Send or CloseRequest, which may come
+	// long after the call was created.
+	duplexCall.onRequestSend = func(header http.Header) {
+		if deadline, ok := ctx.Deadline(); ok {
+			if encodedDeadline, err := grpcEncodeTimeout(time.Until(deadline)); err == nil {
+				// Tests verify that the error in encodeTimeout is unreachable, so we
+				// don't need to handle the error case.
+				header[grpcHeaderTimeout] = []string{encodedDeadline}
+			}
+		}
+	}
 	conn := &grpcClientConn{
 		spec:             spec,
 		duplexCall:       duplexCall,
